@@ -44,6 +44,9 @@ func run(c *hk.Ctx) {
 	runSizes(c)
 	runPrompt(c)
 	runKill(c)
+	runMixed(c)
+	runBurstSizes(c)
+	runChatty(c)
 	runEcho(c)
 }
 
